@@ -216,8 +216,15 @@ class C20:
                 b.emit('emit_warning', {
                     'kind': rng.choice(['user', 'perf', 'dep', 'runtime']),
                     'text': rng.choice(['w', 'x', 'again'])})
-            elif c < 0.57:
+            elif c < 0.545:
                 b.emit('scoped_ignore', {})
+            elif c < 0.57:
+                # other library calls that change warning filters inside,
+                # successfully or failing part-way
+                b.emit('library_io_call', {
+                    'kind': rng.choice(['good', 'noname', 'truncated',
+                                        'yaml']),
+                    'seed': rng.randrange(1000)}, tags={'k': 'library-io'})
             elif c < 0.64 and b.count('sc'):
                 h, _ = b.pick('sc')
                 m = rng.choice(rng.choice(pool))
